@@ -56,6 +56,9 @@ def _rebuild_tensordict_files(flat_key_values, metadata_dict, is_shared: bool = 
             d[key] = value
         for k, v in metadata.items():
             # Each remaining key is a tuple pointing to a sub-tensordict
+            if k.startswith("<TD>"):
+                # escaped name (same as a metadata field), see _reduce_vals_and_metadata
+                k = k[4:]
             d[k] = from_metadata(
                 v, prefix=prefix + (k,) if prefix is not None else (k,)
             )
@@ -126,6 +129,9 @@ def _rebuild_tensordict_files_consolidated(
             d[key] = value
         for k, v in metadata.items():
             # Each remaining key is a tuple pointing to a sub-tensordict
+            if k.startswith("<TD>"):
+                # escaped name (same as a metadata field), see _reduce_vals_and_metadata
+                k = k[4:]
             d[k] = from_metadata(
                 v, prefix=prefix + (k,) if prefix is not None else (k,)
             )
